@@ -164,7 +164,7 @@ let main_exec () =
   let ir0 : node option ref = ref None and ir1 : node option ref = ref None in
   let multiline = ref false and gnames : n list list ref = ref [] in
   let stage_checks = ref 0 in
-  let ir_evals = ref 0 and ir_inconclusive = ref 0 and bt_covered = ref 0 in
+  let ir_evals = ref 0 and ir_inconclusive = ref 0 and bt_covered = ref 0 and opt_covered = ref 0 in
   (* the shape the compile-correctness theorems assume of every IR: Cat [...; Goal] at the top and
      Loop1CharBody only around a node that emits one single-character instruction (IRSem.ir_wf) *)
   let check_ir_shape tag n =
@@ -172,6 +172,7 @@ let main_exec () =
     let top_ok = (match n with NCat l -> (match List.rev l with NGoal :: _ -> true | _ -> false) | NGoal -> true | NCharSet [] -> true | _ -> false) in
     (* ... and the invariant of the optimizer theorems (IRShape.qok): loop bounds ordered, a loop's group range = the
        groups of its body, character sets of at most four members, bracket sets well-formed *)
+    if tag = "ir0" && qok n && simple n then incr opt_covered;
     if not (top_ok && ir_wf (ir_top n) && brackets_wf (ir_top n) && qok n) then begin
       incr mism;
       Printf.printf "MISMATCH stage=IRshape-%s case=%s pat=%s flags=%s detail=top_is_cat_goal:%b,ir_wf:%b,brackets_wf:%b,qok:%b\n" tag !cur_id !cur_pat !cur_flags top_ok (ir_wf (ir_top n)) (brackets_wf (ir_top n)) (qok n)
@@ -352,6 +353,9 @@ let main_exec () =
           incr mism; Printf.printf "MISMATCH stage=haystack case=%s hay=%s start=%d detail=walk_ok:false\n" !cur_id hx !start end;
         (* the text hypotheses of the optimizer theorems (OptTop.text_ok, through OptTextCheck.text_ok_b_sound), at
            the character boundaries of this haystack *)
+        (* the text is well-formed UTF-8 in the sense of the theorems (utf8_chars splits it into well-formed characters) *)
+        if utf8_chars (nat_of_int (List.length !hay)) !hay = None then begin
+          incr mism; Printf.printf "MISMATCH stage=haystack case=%s hay=%s start=%d detail=utf8_chars:none\n" !cur_id hx !start end;
         if not (text_ok_b ix_utf8 !hay) then begin
           incr mism; Printf.printf "MISMATCH stage=haystack case=%s hay=%s start=%d detail=text_ok:false\n" !cur_id hx !start end;
         (* ... and the prefilter hypothesis of the C04 theorem, for the start predicate of this program *)
@@ -417,7 +421,7 @@ let main_exec () =
       | _ -> failwith ("bad line: " ^ line)
     done
   with End_of_file -> ());
-  Printf.printf "SUMMARY cases=%d runs=%d mismatches=%d nontrivial=%d model_steps=%d propviol=%d inconclusive=%d stage_checks=%d ir_evals=%d ir_inconclusive=%d bt_theorem_irs=%d\n" !cases !runs !mism !nontrivial !total_steps !pviol !inconclusive !stage_checks !ir_evals !ir_inconclusive !bt_covered
+  Printf.printf "SUMMARY cases=%d runs=%d mismatches=%d nontrivial=%d model_steps=%d propviol=%d inconclusive=%d stage_checks=%d ir_evals=%d ir_inconclusive=%d bt_theorem_irs=%d opt_theorem_irs=%d\n" !cases !runs !mism !nontrivial !total_steps !pviol !inconclusive !stage_checks !ir_evals !ir_inconclusive !bt_covered !opt_covered
 
 let () =
   match Array.to_list Sys.argv with
